@@ -3,7 +3,8 @@
 Engine P: every deterministic automaton of the stated sizes x every start vertex x every word
 up to a bound, against the set model (mc/oracle/fsa_model.py): walks (accepts / follow_word /
 initial_accepted_subword), enumerators, automaton_multiple / even_automaton, rename_generators,
-recurrent, remove_long_paths, and "non-in-place operations leave the receiver unchanged".
+recurrent (edges, vertices and start vertices), remove_long_paths, and "non-in-place operations leave the
+receiver unchanged" (also when the caller re-roots the result in place: start-vertex lists are never shared).
 Engine E: short histories mixing queries and those operations on real objects (a query that
 writes into one of the automaton's dictionaries can change what a later operation returns).
 
@@ -104,6 +105,35 @@ def unchanged(f, snap, op, cls):
     if snapshot(f) != snap:
         return [{"key": "original-changed/%s/%s" % (op, cls),
                  "msg": "receiver changed by non-in-place %s: before %s after %s" % (op, snap, snapshot(f))}]
+    return []
+
+
+def reroot_in_place(g, new_root="other-root"):
+    """The caller re-roots the automaton g through its public list attribute (start_vertices[0] = r, or
+    append when it has none); returns the undo information."""
+    sv = g.start_vertices
+    saved = list(sv)
+    if len(sv):
+        sv[0] = new_root
+    else:
+        sv.append(new_root)
+    return sv, saved
+
+
+def reroot_leaves(g, f, snap, op, cls):
+    """Re-rooting the RESULT g of a non-in-place operation in place leaves the start vertices of the receiver f as
+    they were."""
+    if g is None or g is f:
+        return []
+    before = list(f.start_vertices)
+    sv, saved = reroot_in_place(g)
+    try:
+        if list(f.start_vertices) != before:
+            return [{"key": "original-rerooted/%s/%s" % (op, cls),
+                     "msg": "re-rooting the result of non-in-place %s in place (result.start_vertices[0] = ...) changed the "
+                            "receiver's start vertices: %r -> %r" % (op, before, list(f.start_vertices))}]
+    finally:
+        sv[:] = saved
     return []
 
 
@@ -290,7 +320,7 @@ def check_multiple(f, m, s, labels, Lm, cls, snap, stats, ks=(1, 2, 3, 4, "even"
         nm = "even_automaton" if k == "even" else "automaton_multiple"
         g = f.even_automaton() if k == "even" else f.automaton_multiple(k)
         stats["t"] += 1
-        v += unchanged(f, snap, nm, cls)
+        v += unchanged(f, snap, nm, cls) or reroot_leaves(g, f, snap, nm, cls)
         if v:
             return v
         n = max(Lm // kk, 2 if kk <= 3 else 1)
@@ -346,7 +376,7 @@ def check_rename(f, m, route, s, labels, Lr, cls, snap, stats, target=TARGET):
         adj2 = O.adjacency(mm)
         g = f.rename_generators(dict(pi), inplace=False)
         stats["t"] += 1
-        v += unchanged(f, snap, "rename_generators", cls)
+        v += unchanged(f, snap, "rename_generators", cls) or reroot_leaves(g, f, snap, "rename_generators", cls)
         if g is None:
             v.append({"key": "rename/copy/returns-None", "msg": "rename_generators(%r, inplace=False) returned None" % (pi,)})
         if v:
@@ -396,16 +426,40 @@ def check_rename(f, m, route, s, labels, Lr, cls, snap, stats, target=TARGET):
     return v
 
 
-def check_recurrent(f, m, route, s, cls, snap, stats):
+def recurrent_start(h, mr, s, who, labels):
+    """Start vertices of a recurrent version h (model mr) of an automaton with the single start vertex s: a
+    sub-automaton's start vertices are vertices of it.  s survives: it is still the start vertex.  s was pruned:
+    no listed start vertex is a deleted vertex, and no word is accepted from the default start."""
+    sv = list(h.start_vertices)
+    if s in mr.V:
+        if sv != [s]:
+            return [{"key": "recurrent/%s/start-vertices/surviving-start" % who,
+                     "msg": "start vertex %r is in the recurrent part %r but the result has start_vertices %r" % (s, sorted(mr.V, key=repr), sv)}]
+        return []
+    gone = [x for x in sv if x not in set(h.vertices())]
+    if gone:
+        return [{"key": "recurrent/%s/start-vertices/pruned-start" % who,
+                 "msg": "start vertex %r was pruned (recurrent part %r) but the result still lists start_vertices %r: not vertices of the result"
+                        % (s, sorted(mr.V, key=repr), sv)}]
+    for w in O.all_words(labels, 1):
+        a = h.accepts(list(w))
+        if a is not False:
+            return [{"key": "recurrent/%s/accepts/pruned-start" % who,
+                     "msg": "start vertex %r was pruned, the result has start_vertices %r and accepts(%r) = %r" % (s, sv, list(w), a)}]
+    return []
+
+
+def check_recurrent(f, m, route, s, cls, snap, stats, labels=("a",), first=True):
     v = []
     mr = m.recurrent()
-    mr2 = recurrent_by_cycles(m)
-    if mr.key() != mr2.key():
-        raise AssertionError("oracles disagree on the recurrent part of %r" % (m.key(),))
+    if first:
+        mr2 = recurrent_by_cycles(m)
+        if mr.key() != mr2.key():
+            raise AssertionError("oracles disagree on the recurrent part of %r" % (m.key(),))
     g = f.recurrent()
     g2 = f.recurrent(inplace=False)
     stats["t"] += 3
-    v += unchanged(f, snap, "recurrent", cls)
+    v += unchanged(f, snap, "recurrent", cls) or reroot_leaves(g, f, snap, "recurrent", cls)
     if g is None or g2 is None:
         v.append({"key": "recurrent/copy/returns-None", "msg": "recurrent(inplace=False) returned None"})
     if v:
@@ -415,6 +469,8 @@ def check_recurrent(f, m, route, s, cls, snap, stats):
     for who, h in (("copy", g), ("copy", g2), ("inplace", f3)):
         v += same_edges(h, mr.E, "recurrent/%s/not-the-greatest-fixpoint" % who,
                         "recurrent() of %r (%s)" % (m.key(), who), V=mr.V)
+        if not v:
+            v += recurrent_start(h, mr, s, who, labels)
         if v:
             return v
     stats["rec"] = len(mr.V)
@@ -432,7 +488,7 @@ def check_rlp(f, m, s, roots, cls, snap, stats):
             else:
                 g = f.remove_long_paths(root=root, edge_ties=ties)
             stats["t"] += 1
-            v += unchanged(f, snap, "remove_long_paths", cls)
+            v += unchanged(f, snap, "remove_long_paths", cls) or reroot_leaves(g, f, snap, "remove_long_paths", cls)
             if v:
                 return v
             who = "remove_long_paths(root=%r, edge_ties=%r) of %r" % (root, ties, m.key())
@@ -478,8 +534,8 @@ def case_ops(case):
             v = check_rename(f, m, route, s, labels, min(Lm, 4), cls, snap, stats)
             if not v and i == 0:       # relabelling to multi-character names: words are lists / tuples of labels
                 v = check_rename(f, m, route, s, labels, min(Lm, 3), cls, snap, stats, target=TARGET_MC)
-        if not v and i == 0:
-            v = check_recurrent(f, m, route, s, cls, snap, stats)
+        if not v:                  # every start vertex: whether it survives the pruning depends on it
+            v = check_recurrent(f, m, route, s, cls, snap, stats, labels=labels, first=(i == 0))
         if v:
             break
     return {"v": v, "t": stats["t"], "o": "%d/%d/%d" % (stats["enum"], stats["rec"], stats["rlp"]),
@@ -609,7 +665,7 @@ def case_builtin(case):
         ks.append(k)
         nm = "even_automaton" if k == "even" else "automaton_multiple"
         g = f.even_automaton() if k == "even" else f.automaton_multiple(k)
-        v += unchanged(f, snap, nm, cls)
+        v += unchanged(f, snap, nm, cls) or reroot_leaves(g, f, snap, nm, cls)
         n = L // kk
         exp = sorted(x for j in range(n + 1) for x in lang[kk * j])
         got = list(g.enumerate_words(n))
@@ -636,7 +692,7 @@ def case_builtin(case):
     maps = [dict(zip(names, names[1:] + names[:1])), {n: n.swapcase() for n in names}]
     for pi in maps:
         g = f.rename_generators(dict(pi), inplace=False)
-        v += unchanged(f, snap, "rename_generators", cls)
+        v += unchanged(f, snap, "rename_generators", cls) or reroot_leaves(g, f, snap, "rename_generators", cls)
         mm = m.rename(pi)
         v += same_edges(g, mm.E, "rename/copy/edges", "%s rename %r" % (name, pi))
         if v:
@@ -655,8 +711,10 @@ def case_builtin(case):
     if mr.key() != recurrent_by_cycles(m).key():
         raise AssertionError("oracles disagree on the recurrent part of " + name)
     g = f.recurrent()
-    v += unchanged(f, snap, "recurrent", cls)
+    v += unchanged(f, snap, "recurrent", cls) or reroot_leaves(g, f, snap, "recurrent", cls)
     v += same_edges(g, mr.E, "recurrent/copy/not-the-greatest-fixpoint", "%s recurrent()" % name, V=mr.V)
+    if not v:
+        v += recurrent_start(g, mr, s, "copy", names)
     if v:
         return {"v": v}
     v += check_rlp(f, m, s, [None, s] + sorted(m.V)[1:3], cls, snap, stats)
@@ -851,6 +909,21 @@ def state_invariants(st):
         return v
     adj = O.adjacency(m)
     alphabet = list(st["alphabet"])
+    # the start vertex of the history: still the start vertex while it is a vertex; once it was pruned
+    # (recurrent) it is not listed as a start vertex any more and nothing is accepted from the default start
+    sv = list(f.start_vertices)
+    if st["s"] in m.V:
+        if sv != [st["s"]]:
+            return [{"key": "history/state/start-vertices/surviving-start/" + cls,
+                     "msg": "start_vertices %r, expected %r (vertices %r)" % (sv, [st["s"]], sorted(m.V, key=repr))}]
+    else:
+        if any(x not in m.V for x in sv):
+            return [{"key": "history/state/start-vertices/pruned-start/" + cls,
+                     "msg": "start_vertices %r lists a vertex that was deleted (vertices %r)" % (sv, sorted(m.V, key=repr))}]
+        for w in O.all_words(alphabet, 1):
+            if f.accepts(list(w)) is not False:
+                return [{"key": "history/state/accepts/pruned-start/" + cls,
+                         "msg": "accepts(%r) is not False although the start vertex was pruned (start_vertices %r)" % (list(w), sv)}]
     probe = alphabet + (["z"] if st["base"] else [])
     n = 2 if len(probe) <= 5 else 1
     for u in sorted(m.V, key=repr):
@@ -888,6 +961,29 @@ def case_history(hist):
             v += unchanged(g, snap, opn, cls)
     if not v:
         v = state_invariants(st)
+    if not v:
+        # start vertices are a public list: re-rooting ANY of the automata of this history in place (the reached
+        # one, or an original a non-in-place operation was applied to) re-roots no other one
+        objs = [(st["f"], "result", st["cls"])]
+        for (g, snap, opn, cls) in retained:
+            if all(g is not o for (o, _, _) in objs):
+                objs.append((g, opn, cls))
+        for i, (x, opn_x, _) in enumerate(objs):
+            before = [list(o.start_vertices) for (o, _, _) in objs]
+            sv, saved = reroot_in_place(x)
+            try:
+                for j, (o, opn_o, cls_o) in enumerate(objs):
+                    if j != i and list(o.start_vertices) != before[j]:
+                        opn, cls = (opn_o, cls_o) if i == 0 else (opn_x, objs[i][2])
+                        v.append({"key": "start-vertices-shared/%s/%s" % (opn, cls),
+                                  "msg": "re-rooting %s in place re-rooted %s as well: start_vertices %r -> %r (one list shared by two automata)"
+                                         % ("the reached automaton" if i == 0 else "the receiver of " + opn_x,
+                                            "the reached automaton" if j == 0 else "the receiver of " + opn_o, before[j], list(o.start_vertices))})
+                        break
+            finally:
+                sv[:] = saved
+            if v:
+                break
     if not v:
         # the other direction: the caller goes on editing a retained original in place; the automaton
         # reached by the history (a result of a non-in-place operation) must not follow
@@ -939,6 +1035,12 @@ def run(ctx):
                 "operations are explored breadth-first; non-trivial = the automaton has at least one edge")
     ctx.assume("automata are deterministic; exactly one start vertex is set explicitly (automaton_multiple, "
                "initial_accepted_subword and default-start calls read start_vertices)")
+    ctx.assume("start_vertices is a public list: the caller may re-root an automaton in place (start_vertices[0] = r, append); 'non-in-place "
+               "operations leave the original unchanged' includes its start vertices, in both directions (result vs receiver)")
+    ctx.assume("the recurrent version is a sub-automaton: its start vertices are vertices of it.  A start vertex that survives the pruning stays "
+               "the start vertex; when it is pruned the result lists no deleted vertex as a start vertex and accepts() (documented: 'any start "
+               "state is allowed') is False for every word; follow_word / the enumerators from a missing default start are not called")
+    ctx.assume("remove_long_paths is judged on its edges only (the property names the edges it keeps; its result is rooted by the caller)")
     ctx.assume("relabelling maps are injective and defined on every label of the alphabet")
     ctx.assume("a word over single-letter labels is a string, a list or a tuple of labels; over multi-character labels (k-step "
                "automata, relabelled automata, automata built with such labels) it is a list or a tuple of labels; the prefix "
